@@ -5,9 +5,11 @@ package sourcewrap
 import (
 	"context"
 	"errors"
+	"io"
 	"reflect"
 
 	"github.com/vimeo/dials"
+	"github.com/vimeo/dials/ptrify"
 	"github.com/vimeo/dials/transform"
 	"github.com/vimeo/dials/zzverif"
 )
@@ -238,3 +240,82 @@ func ptrTypeOf(d *dials.Dials[c20cfg]) reflect.Type {
 	}
 	return reflect.TypeOf(pt{})
 }
+
+// ---- transforming decoder
+
+type c20cfgB struct {
+	X string
+	Y map[string]struct{}
+	Z int8
+}
+
+// c20dec fills the first string-typed and first slice-typed field of whatever type it is given.
+type c20dec struct{ fail bool }
+
+func (d *c20dec) Decode(r io.Reader, t *dials.Type) (reflect.Value, error) {
+	if d.fail {
+		return reflect.Value{}, errInner
+	}
+	out := reflect.New(t.Type()).Elem()
+	for i := 0; i < out.NumField(); i++ {
+		f := out.Field(i)
+		switch {
+		case f.Type() == reflect.TypeOf((*string)(nil)):
+			s := "str"
+			f.Set(reflect.ValueOf(&s))
+		case f.Kind() == reflect.Slice && f.Type().Elem().Kind() == reflect.String:
+			f.Set(reflect.ValueOf([]string{"m"}))
+		}
+	}
+	return out, nil
+}
+
+type c20empty struct{}
+
+func (c20empty) Read(p []byte) (int, error) { return 0, io.EOF }
+
+// HarnessC20Decoder: one transforming-decoder instance used for two different config types (in
+// both orders), and a failing inner decoder.
+func HarnessC20Decoder() {
+	type cfgA struct {
+		Name string
+		Set  map[string]struct{}
+	}
+	fail := zzverif.Choose("fail", 2) == 1
+	dec := NewTransformingDecoder(&c20dec{fail: fail}, &transform.SetSliceMangler{})
+	ta := dials.NewType(ptrTypeFor(reflect.TypeOf(cfgA{})))
+	tb := dials.NewType(ptrTypeFor(reflect.TypeOf(c20cfgB{})))
+	order := []*dials.Type{ta, tb}
+	if zzverif.Choose("order", 2) == 1 {
+		order = []*dials.Type{tb, ta}
+	}
+	for round := 0; round < 2; round++ {
+		for _, t := range order {
+			v, err := dec.Decode(c20empty{}, t)
+			if fail {
+				zzverif.Assert(err != nil && errors.Is(err, errInner), "C20 an inner decoder's error was swallowed or not wrapped by the transforming decoder")
+				continue
+			}
+			zzverif.Assert(err == nil, "C20 the transforming decoder failed")
+			if err != nil {
+				continue
+			}
+			zzverif.Assert(v.Type() == t.Type(), "C20 the transforming decoder returned a value of a type other than the one it was asked for")
+			if v.Type() != t.Type() {
+				continue
+			}
+			var sf, mf reflect.Value
+			if t == ta {
+				sf, mf = v.FieldByName("Name"), v.FieldByName("Set")
+			} else {
+				sf, mf = v.FieldByName("X"), v.FieldByName("Y")
+				zzverif.Assert(v.FieldByName("Z").IsNil(), "C20 a leaf the inner decoder did not set is set")
+			}
+			zzverif.Assert(!sf.IsNil() && sf.Elem().String() == "str", "C20 a decoded string leaf did not arrive")
+			zzverif.Assert(!mf.IsNil() && mf.Len() == 1 && mf.MapIndex(reflect.ValueOf("m")).IsValid(), "C20 a decoded set leaf did not arrive reverse-translated (slice -> set)")
+		}
+	}
+	zzverif.Reached("c20-decoder-end")
+}
+
+func ptrTypeFor(t reflect.Type) reflect.Type { return ptrify.Pointerify(t, reflect.Value{}) }
